@@ -166,7 +166,7 @@ CHECKS["C06"] = {
     "pkg": "./conn",
     "level": "exploration",
     "rule": ("A case is a connection configuration (soft/hard cancel, split size, writer buffer), 1..3 RPCs whose client and handler programs are drawn independently "
-             "(unary or stream; client: send/recv/drain/closesend/close/cancel steps, receives whose encoding rejects the message and sends whose encoding cannot marshal it, unary with an optional concurrent canceller or with a request that cannot be marshalled, optional cancel of the call's context once it is over; "
+             "(unary or stream; client: send/recv/drain/closesend/close/cancel steps, receives whose encoding rejects the message and sends whose encoding cannot marshal it, unary with an optional concurrent canceller or with a request that cannot be marshalled, optional cancel of the call's context once it is over; stream calls may end the way generated stubs end them, by half-close and reading to the end without Close, in either order; "
              "handler: recv/send steps, possibly an undecodable receive or no receive at all, then return nil or an error), issued one after the other or all up front from separate goroutines, "
              "optionally holding the point between stream creation and the invoke write or keeping the goroutine that watches the call's context late until the call is over, a window of steps during which one transport direction is stalled, and up to 300 pre-drawn director choices from an alphabet weighted towards grants (transport chunking, grants, point releases). "
              "After each RPC the transport is flushed; an application-level stall is ended by Close from another goroutine. Oracle: if the connection has not reported itself closed and every client call and handler "
